@@ -24,7 +24,7 @@ CHECKS = {
               'a muxing queue never loses or duplicates an object, never leaves an object queued while a process waits, keeps each FIFO semaphore equal to its unclaimed items, and delivers in posting order to a single consumer. '
               'The ring-level model (circular buffers with head/tail/NULL-slot test, live counts, release enable, shutdown) is executed step for step against the real EbSystemResourceManager.c (harness #includes the .c, '
               'so every critical section is driven individually under a seeded scheduler); result and complete structure dump must agree after every step, and the spec predicates (exclusive hand-out, conservation, order, '
-              'wake-up, release exactly at last reference, shutdown) are evaluated on the real structure.'),
+              'wake-up, release exactly at last reference, shutdown) are evaluated on the real structure. srm_released_object_is_protected / srm_release_pushes_only_on_last (SRMrelease.v): the release that returns an object leaves the released marker, and any number (< 2^32 - 1) of surplus releases of that wrapper changes neither queue; a quarter of the scenarios issue such surplus releases on the real code.'),
         note=('Trusted: Coq kernel; extraction + OCaml driver; atomicity of the mutex-protected sections and POSIX semaphore semantics; gcc. The refinement ring layer -> deque layer is proved (RingRefine.v: step for step while no ring exceeds its capacity; the capacity window is evaluated on every real state, the capacity-1 process ring '
               'under non-blocking polling is exempt); srm_steps_are_critical_sections: every queue operation / reference-count write of every mutex-taking function of EbSystemResourceManager.c happens with a mutex held on every path '
               '(GuardFlow.v over skeletons regenerated by tr_locks.py; which calls and fields count as shared accesses is a fixed list); live counts / shutdown are in the ring model only. Threads blocked in get_empty are not woken by shutdown on the pinned tree (documented baseline behaviour, not exercised as a violation).')),
@@ -68,10 +68,10 @@ CHECKS = {
               'harness/scn/svt_scn.c, watchdog timing. An EOS flag set on a buffer that also carries a picture is outside the stated protocol and not exercised.')),
     'C02': dict(
         category='other', design_ref='DESIGN.md §6 C02',
-        technique='Coq-verified OBU / sequence-header parser (soundness lemmas proved) extracted and applied to every packet of real encodes',
+        technique='Coq-verified OBU / sequence-header parser (soundness lemmas proved) extracted and applied to every packet of real encodes + Coq theorems on C-level models of the LEB128 routines tied to the C text by an extracted-model correspondence run',
         text=('check_packet (Gallina, written from the AV1 syntax: leb128, OBU header, complete sequence header incl. trailing bits, start of the frame header) is proved to imply: the packet is exactly a sequence of OBUs '
               'laid end to end, each size field equals its payload length, the first OBU is the only temporal delimiter, exactly one frame is displayed, every sequence header parses completely and equals the reference. '
-              'leb128 round trip is proved for every size < 2^56. The extracted checker runs on every packet of encodes over sizes hitting the byte-boundary cases of the sequence header, key-frame periods, hierarchy depths, '
+              'leb128 round trip is proved for every size < 2^56, also at the level of the library\'s own routines (Leb128C.v: svt_aom_uleb_size_in_bytes minimal for every 64-bit value, svt_aom_uleb_encode refuses exactly v >= 2^56 or size > available, dec_get_bits_leb128 reads back value / length / rest), those models being run against the sliced C text and EbDecBitstream.c. The extracted checker runs on every packet of encodes over sizes hitting the byte-boundary cases of the sequence header, key-frame periods, hierarchy depths, '
               'tiles, multi-byte size fields, open GOP, screen content, 10 bit, VBR, film grain, superres; the stream-header call is compared with the in-band header.'),
         note=('The property for all inputs is decided only on the scenarios run (partial); the parser is a hand transcription of the AV1 syntax (trusted; cross-checked only by the library\'s own decoder accepting the same '
               'streams in other checks). Frame headers are parsed only as far as needed to tell displayed frames; tile-group payloads are not parsed.')),
